@@ -539,6 +539,33 @@ func (h *hist) rot(op Op) int {
 	return wOK
 }
 
+// sibling: activity on another file of the followed file's directory (never on the followed path itself).
+func (h *hist) sibling(op Op) {
+	base := filepath.Base(h.path)
+	ext := filepath.Ext(base)
+	names := []string{"old-" + base, base + ".1", "x" + base, base[1:], base + "~", strings.TrimSuffix(base, ext)}
+	name := filepath.Join(h.dir, names[((op.N%len(names))+len(names))%len(names)])
+	touch := func(p string) {
+		if f, err := os.OpenFile(p, os.O_CREATE|os.O_WRONLY|os.O_APPEND, 0o644); err == nil {
+			f.Write([]byte("sibling line\n"))
+			f.Close()
+		}
+	}
+	switch op.How {
+	case "rm":
+		touch(name)
+		os.Remove(name)
+	case "mv":
+		touch(name)
+		os.Rename(name, filepath.Join(h.dir, "moved-"+filepath.Base(name)))
+	default:
+		touch(name)
+	}
+	h.m.mu.Lock()
+	h.m.siblingOps++
+	h.m.mu.Unlock()
+}
+
 func (h *hist) execOps() int {
 	m := h.m
 	for _, op := range h.cs.Ops {
@@ -586,6 +613,8 @@ func (h *hist) execOps() int {
 			}
 		case "release":
 			h.release()
+		case "sib":
+			h.sibling(op)
 		case "rot":
 			if !h.cs.Reopen {
 				continue
@@ -751,6 +780,7 @@ func runReaderOnce(c *run.Ctx, cs *Case, dir string) (out outcome) {
 	defer m.mu.Unlock()
 	// evidence counters
 	c.Count("reads", m.reads)
+	c.Count("sibling_file_events", m.siblingOps)
 	c.Count("bytes_delivered_and_compared", m.delivered)
 	c.Count("events_observed", m.events)
 	for k, v := range m.hits {
